@@ -66,8 +66,8 @@ CHK_FULL = [v.to_bytes(4, "big") for v in D.dedupe(D.edge(32) + [0x01020304])]
 CHK_EDGE = [bytes(4), b"\xff" * 4, bytes([1, 2, 3, 4]), b"\xaa" * 4]
 RESPS = [[], [U.RESP_ONE_NAME], [U.RESP_TWO_NAMES_MSG], [U.RESP_TWO_NAMES], [U.RESP_ONE_NAME_MSG],
          [U.RESP_ONE_NAME, U.RESP_TWO_NAMES_MSG], [U.RESP_TWO_NAMES_MSG, U.RESP_TWO_NAMES, U.RESP_ONE_NAME_MSG], [U.RESP_REPLACE], [U.RESP_REPLACE, U.RESP_ONE_NAME]]
-OPTS_FULL = [None, [U.OPT_FLOW], U.OPTS_MIXED, U.OPTS_TWO_NAME_REQ, U.OPTS_REPLACE_REQ]
-OPTS_EDGE = [None, [U.OPT_FLOW], U.OPTS_MIXED]
+OPTS_FULL = [None, [], [U.OPT_FLOW], U.OPTS_MIXED, U.OPTS_TWO_NAME_REQ, U.OPTS_REPLACE_REQ]
+OPTS_EDGE = [None, [], [U.OPT_FLOW], U.OPTS_MIXED]
 
 
 def seg_values(large):
@@ -198,7 +198,27 @@ def shards(tier):
     for part, idxs in enumerate(D.chunks(list(range(len(CFGS))), 4)):
         items.append({"job": "fit", "cfgs": idxs, "tier": tier})
     items.append({"job": "ack-refusal", "tier": tier})
+    # directives whose data field is long: the 16-bit length beyond 0x7FFF and close to 0xFFFF (NAK segment requests, Finished
+    # filestore responses, Metadata options), under eight configurations spread over the configuration space
+    for k in range(8):
+        items.append({"job": "big", "cfg": (k * 37 + 5) % len(CFGS), "tier": tier})
     return items
+
+
+def big_recipes(cfg):
+    w = 16 if cfg["large"] else 8
+    scope = 17 if cfg["large"] else 9
+    room = 65535 - scope - (2 if cfg["crc"] else 0)
+    out = []
+    for n in sorted({32768 // w - 1, 32768 // w, 32768 // w + 1, room // w - 1, room // w}):
+        out.append(("NakPdu", {"start": 1, "end": 0x01020304, "segs": [[i, i + 1] for i in range(n)]}))
+    resp = lambda i: {"action": 1, "status": 0, "first": "f%03d" % i + "x" * 96, "second": None, "msg": bytes([i & 0xFF]) * 100}  # noqa: E731
+    for n in (159, 160, 300):  # 205 octets each
+        out.append(("FinishedPdu", {"cc": 4, "dc": 1, "fs": 1, "resps": [resp(i) for i in range(n)], "fault": b"\x31"}))
+    for n in (162, 163, 320):  # 202 octets each
+        out.append(("MetadataPdu", {"closure": 1, "cs": 0, "size": 0x0102, "src": "s", "dst": "d",
+                                    "opts": [{"t": "msg", "v": bytes([(i + j) & 0xFF for j in range(200)])} for i in range(n)]}))
+    return out
 
 
 def check_fit(rec, kind, field, recipe):
@@ -246,6 +266,12 @@ def run_shard(item):
                 check_fit(rec, kind, field, {"cfg": cfg, "params": p})
                 rec.count("fit_cases")
         rec.sample({"fit": "EofPdu", "recipe": {"cfg": CFGS[item["cfgs"][0]], "params": {"size": str(FIT_32[0])}}, "expected": "pack() raises"}, limit=1)
+    elif item["job"] == "big":
+        cfg = CFGS[item["cfg"]]
+        for kind, p in big_recipes(cfg):
+            rec.case(True, ops=U.OPS_PER_CASE)
+            U.judge(rec, PROPERTY, None, U.UNITS[kind], {"cfg": cfg, "params": p}, "class")
+            rec.count("big_directive_cases")
     elif item["job"] == "ack-refusal":
         # the property speaks of valid parameter sets only: what the constructor does with another acked directive
         # is recorded as an outcome, not judged
